@@ -4,7 +4,7 @@
    computes  p = E't / t't,  phat = p/|p|  and the block score  t_b = E phat / sf  — and phat is
    the normalised E't itself (the positive factor 1/t't cancels), which is CpcaSpec.phat / tb. *)
 From mathcomp Require Import all_ssreflect all_algebra.
-From LS Require Import NumOps RcfOps Kernels KernelsSpec Pca PcaRefine NipalsSpec Cpca.
+From LS Require Import NumOps RcfOps Kernels KernelsSpec Pca PcaRefine NipalsSpec Cpca CpcaSpec.
 Set Implicit Arguments. Unset Strict Implicit. Unset Printing Implicit Defensive.
 Import Order.TTheory GRing.Theory Num.Theory.
 Local Open Scope ring_scope.
@@ -85,3 +85,31 @@ rewrite (matvec_intoE wTt sw) ?size_nseq ?st //; last by rewrite -st; apply: (cl
 by rewrite zeros_cv add0r (transposeE wT) ew.
 Qed.
 End CpcaRefine.
+
+(* the matrix form of the pass (B x n matrix of block scores) IS the sum over blocks of Spec/CpcaSpec.v *)
+Section Identify.
+Variable R : rcfType.
+Variables (n B : nat) (mb : 'I_B -> nat).
+Variable X : forall b : 'I_B, 'M[R]_(n, mb b).
+Variable sf : 'I_B -> R.
+Variable t : 'cV[R]_n.
+Hypothesis t_pos : 0 < CpcaSpec.dot t t.
+Definition tbm : 'M[R]_(B, n) := \matrix_(b, i) (CpcaSpec.tb X sf t b) i 0.
+Lemma tbm_t b : (tbm *m t) b 0 = CpcaSpec.dot (CpcaSpec.tb X sf t b) t.
+Proof. by rewrite /CpcaSpec.dot !mxE; apply: eq_bigr => i _; rewrite !mxE. Qed.
+Lemma dot_uu : NipalsSpec.dot (tbm *m t) (tbm *m t) = \sum_b (CpcaSpec.dot (CpcaSpec.tb X sf t b) t) ^+ 2.
+Proof. by rewrite /NipalsSpec.dot mxE; apply: eq_bigr => b _; rewrite mxE tbm_t expr2. Qed.
+Theorem pass_is_spec_step : CpcaSpec.t_new X sf t = tbm^T *m NipalsSpec.normalize (tbm *m t).
+Proof.
+have tt0 : CpcaSpec.dot t t != 0 by rewrite gt_eqF.
+apply/colP => i; rewrite /CpcaSpec.t_new summxE [RHS]mxE; apply: eq_bigr => b _.
+rewrite [LHS]mxE [tbm^T _ _]mxE [tbm _ _]mxE /NipalsSpec.normalize [X in _ = _ * X]mxE tbm_t dot_uu.
+rewrite mulrC; congr (_ * _).
+rewrite /CpcaSpec.w /CpcaSpec.vnorm /CpcaSpec.v.
+rewrite (eq_bigr (fun b => (CpcaSpec.dot (CpcaSpec.tb X sf t b) t) ^+ 2 / (CpcaSpec.dot t t) ^+ 2)); last first.
+  by move=> c _; rewrite exprMn exprVn.
+rewrite -mulr_suml sqrtrM ?sumr_ge0 // => [|c _]; last by rewrite sqr_ge0.
+rewrite sqrtrV ?sqr_ge0 // sqrtr_sqr gtr0_norm //.
+by rewrite invfM invrK mulrACA mulVf // mulr1 mulrC.
+Qed.
+End Identify.
